@@ -16,8 +16,9 @@ import (
 //
 // The body fetcher (Downloader.fetchParts) offers work only to peers whose busy flag is clear, and a
 // busy flag is cleared only by (a) a packet of that peer being handled, (b) the expiry of a request
-// of that peer, (c) the start of the next Synchronise. So the following state can never be left
-// while the Synchronise call lasts, whatever time passes:
+// of that peer, (c) the start of the next Synchronise. (The harness registers peers only between
+// Synchronise calls, and everything a scripted peer does happens inside a request handler.) So
+// the following state can never be left while the Synchronise call lasts, whatever time passes:
 //
 //   - the call has not been cancelled (is not winding down) and its body fetcher has issued at
 //     least one request to the peer in question,
